@@ -213,6 +213,9 @@ func StatementProcessor(gs *gripql.GraphStatement, db gdbi.GraphInterface, ps *p
 		if ps.LastType != gdbi.VertexData && ps.LastType != gdbi.EdgeData {
 			return nil, fmt.Errorf(`"Has" statement is only valid for edge or vertex types not: %s`, ps.LastType.String())
 		}
+		if stmt.Has == nil {
+			return nil, fmt.Errorf(`"Has" statement has no expression`)
+		}
 		return &Has{stmt.Has}, nil
 
 	case *gripql.GraphStatement_HasLabel:
